@@ -280,9 +280,11 @@ theorem step_asElem (ctx : Ctx) (tag : Str) (attrs : List Attr) (kids : List Nod
   intro st
   refine conv_of_succ (fun f => (monoAt_all W f).asElem ctx st tag attrs kids) (Conv.halts ?_)
   simp only [evalAsElement]
-  refine conv_ite _ (fun hv => ?_) (fun _ => conv_ite _ (fun _ => ?_) (fun _ => ?_))
+  refine conv_ite _ (fun hv => ?_) (fun _ => conv_ite _ (fun _ => conv_ite _ (fun _ => ?_) (fun _ => ?_)) (fun _ => ?_))
   · refine ih (Call.for_ ctx tag attrs kids (getAttr attrs (S "v-for"))) ?_ st
     have := loopInstanceAttrs_length_lt attrs (hasAttr_of_getAttr_ne attrs _ (by simpa using hv))
+    right; simp only [Call.depth, Call.ctx, Call.meas]; omega
+  · refine ih (Call.tmpl ctx attrs kids) ?_ st
     right; simp only [Call.depth, Call.ctx, Call.meas]; omega
   · refine ih (Call.list ctx kids) ?_ _
     right; simp only [Call.depth, Call.ctx, Call.meas]; omega
